@@ -171,6 +171,17 @@ def check_paren_action(modname, funcdef):
             rp = SymObj(None, 'RPAREN', prov='param')
             p = make_p(ex, 'LPAREN expr RPAREN', [lp, operand, rp])
             selfo = SymObj(None, 'self', prov='param')
+            selfo.known_not_none = True
+            try:
+                # helper methods extracted from the action are the real ones of the parser class that defines it
+                import importlib
+                m_ = importlib.import_module(modname)
+                for k_ in vars(m_).values():
+                    if isinstance(k_, type) and k_.__module__ == modname and any(getattr(v_, '__code__', None) is not None and v_.__name__ == funcdef.name for v_ in vars(k_).values() if callable(v_)):
+                        selfo.self_class = k_
+                        break
+            except Exception:
+                pass
             return [selfo, p], {}
         return make_args
 
